@@ -49,6 +49,10 @@ def run(tier):
     for name, ebnf, texts in FULL:
         cases.append({'label': 'full/' + name, 'ebnf': ebnf, 'texts': texts})
         cases.append({'label': 'json/' + name, 'ebnf': ebnf, 'texts': texts, 'json': 'roundtrip'})
+    from ..derived import ANTLR
+    for name, g4, texts in ANTLR:          # "however obtained": models translated from ANTLR grammars
+        cases.append({'label': 'antlr/' + name, 'antlr': g4, 'name': name.capitalize(), 'ebnf': '', 'texts': texts,
+                      'compare_model': False})     # translated models hold Synth placeholders where the recompiled text has calls
     toks = token_grammars()
     if tier == 'quick':
         toks = toks[ck.seed % 2::2]
